@@ -54,7 +54,20 @@ AliasConfs == {
   [Base EXCEPT !.cp = Two(CC("M3", "t1", {}, FALSE, "p/"), CC("M4", "t2", {}, FALSE, "p")),
                !.ckeys = {"p/"}, !.okey = "p/", !.pre = {<<"M3", "t1">>}, !.tdels = {"t1", "t2"}],
   [Base EXCEPT !.cp = Two(CC("M1", "t1", {}, FALSE, "p/"), CC("S1", "t2", {}, FALSE, "p")),
-               !.ckeys = {"p", "p/"}, !.tdels = {"t1", "t2"}, !.faults = FALSE] }
+               !.ckeys = {"p", "p/"}, !.tdels = {"t1", "t2"}, !.faults = FALSE],
+  [Base EXCEPT !.cp = Two(CC("M3", "t1", {}, FALSE, "r"), CC("M4", "t2", {}, FALSE, "p")),
+               !.ckeys = {"p", "r"}, !.okey = "r", !.tdels = {"t1", "t2"}],
+  [Base EXCEPT !.cp = Two(CC("M3", "t1", {}, FALSE, "r"), CC("M4", "t2", {}, FALSE, "p/")),
+               !.ckeys = {"r", "p/"}, !.fresh = TRUE] }
+
+\* one client that reaches the layout through the symbolic link and through the real path in the
+\* same history: Clean + Abs keeps two keys (finding C08-2), resolving the links gives one
+LinkMixConfs == {
+  [Base EXCEPT !.cp = Two(CC("M3", "t1", {}, FALSE, "l"), CC("M4", "t2", {}, FALSE, "p")),
+               !.ckeys = {"p", "l"}, !.fresh = fr, !.tdels = {"t1", "t2"}, !.faults = FALSE]
+    : fr \in BOOLEAN } \cup {
+  [Base EXCEPT !.cp = Two(CC("M1", "t1", {}, FALSE, "p"), CC("M4", "t2", {}, FALSE, "l")),
+               !.ckeys = {"l"}, !.okey = "l", !.pre = {<<"M3", "t3">>}, !.tdels = {"t1", "t3"}] }
 \* a layout that does not exist when the history starts and / or is reached through a symbolic
 \* link (one spelling per history: everything through the link, or everything through the real path)
 LinkConfs == {
@@ -85,6 +98,8 @@ ShapeConfsGen == ShapeConfs \cup WithGC({
   [Base EXCEPT !.cp = Two(CC("I1", "t2", {}, FALSE, "p"), CC("M2", "t3", {}, FALSE, "p")),
                !.pre = {<<"N1", "t1">>}, !.plant = {"tmp-plant", "tmp-plant-man"},
                !.dels = {"I1", "N1", "M3"}, !.tdels = {"t1", "t2", "t3"}, !.faults = FALSE],
+  [Base EXCEPT !.cp = Two(CC("M5", "t1", {}, FALSE, "p"), CC("X1", "t2", {}, FALSE, "p")),
+               !.dels = {"M5"}, !.tdels = {"t1", "t2"}, !.pblobs = {"L5"}, !.faults = TRUE],
   [Base EXCEPT !.cp = Two(CC("X1", "t1", {}, FALSE, "p"), CC("M2", "t2", {}, FALSE, "p")),
                !.dels = {"X1", "M4"}, !.tdels = {"t1", "t2"}, !.retags = {<<"t1", "t2">>, <<"t2", "t3">>},
                !.faults = TRUE],
